@@ -90,7 +90,9 @@ def run(ctx):
             Ir = I * mul_ + add_
             if add_ == -1:
                 # labels at the very top of the type's range (max, max-2, ...): any arithmetic on labels would wrap
-                Ir = np.iinfo(dt).max - 2 * (I.max() - I)
+                # (32-bit types: labels around 10^6 - a table indexed by label would still be allocatable, so that a
+                #  wrong implementation shows as a wrong answer and not as an exhausted machine)
+                Ir = min(int(np.iinfo(dt).max), 1000003) - 2 * (I.max() - I)
             if Ir.max() <= np.iinfo(dt).max and Ir.min() >= 0:
                 Ir = Ir.astype(dt)
                 for order_, vref in ((1, v1), (2, v2)):
